@@ -114,7 +114,7 @@ SrcEnd ==
   /\ UNCHANGED <<g, dst, dstIn, nPush, nFetch, cbs, pushed, cbFail, ret, phase, viol>>
 
 DstBegin ==
-  /\ Rec.e \in {"existsB", "pushB", "tagB"}
+  /\ Rec.e \in {"existsB", "pushB", "tagB", "mountB"}
   /\ dstIn' = dstIn + 1
   /\ nPush' = IF Rec.e = "pushB" /\ Rec.n # 0 THEN [nPush EXCEPT ![Rec.n] = @ + 1] ELSE nPush
   /\ V({<<"InFlightDst", dstIn + 1 <= g.c>>,
@@ -129,8 +129,10 @@ ExistsEnd ==
 
 \* a push returned: the event carries the node set of the underlying
 \* destination read right after it
+\* (a mount attempt - registry.Mounter with CopyGraphOptions.MountFrom - is a destination operation that makes the
+\* node present like a push; several source repositories may be tried for one node)
 PushEnd ==
-  /\ Rec.e = "pushE"
+  /\ Rec.e \in {"pushE", "mountE"}
   /\ dstIn' = dstIn - 1
   /\ dst' = Rng(Rec.has)
   /\ pushed' = IF Rec.r = "ok" /\ Rec.n # 0 /\ Rec.n \notin dst THEN pushed \cup {Rec.n} ELSE pushed
@@ -151,6 +153,7 @@ Callback ==
            <<"CbPreOnce", k = "pre" => sofar = <<>> >>,
            <<"CbPostAfterPre", k = "post" => sofar = <<"pre">> >>,
            <<"CbMountedGrammar", k = "mounted" => sofar \in {<<>>, <<"pre">>} >>,
+           <<"CbMountedPresent", k = "mounted" /\ n # 0 => n \in dst>>,
            <<"CbSkippedAlone", k = "skipped" => sofar = <<>> >>,
            <<"CbSkippedPresent", k = "skipped" /\ n # 0 => n \in dst>>,
            <<"CbPostAfterSuccessors", k = "post" /\ n # 0 => \A m \in SuccNF(n) : HasTerminal(m)>>,
@@ -164,7 +167,7 @@ Return ==
         <<"NoSpuriousError", (Rec.fired = 0 /\ ~Rec.cancelled) => ~Rec.err>>,
         <<"CallbackErrorReturned", cbFail /\ Rec.fired = 1 => Rec.cberr>>,
         <<"Quiescent", srcIn = 0 /\ dstIn = 0>>,
-        <<"TransferredNotified", ~Rec.err => \A n \in pushed : cbs[n] = <<"pre", "post">> >>,
+        <<"TransferredNotified", ~Rec.err => \A n \in pushed : cbs[n] \in {<<"pre", "post">>, <<"mounted">>} >>,
         <<"ReturnedRoot", ~Rec.err /\ IsTagging => Rec.root = (IF IsExt THEN g.root ELSE ExpectedRoot)>>})
   /\ UNCHANGED <<g, dst, srcIn, dstIn, nPush, nFetch, cbs, pushed, cbFail, phase>>
 
